@@ -213,6 +213,8 @@ charconst(struct scanner *s)
 			error(&s->loc, "newline in character constant");
 		case EOF:
 			error(&s->loc, "EOF in character constant");
+		case '\0':
+			error(&s->loc, "null byte in character constant");
 		default:
 			nextchar(s);
 			break;
@@ -237,6 +239,8 @@ stringlit(struct scanner *s)
 			error(&s->loc, "newline in string literal");
 		case EOF:
 			error(&s->loc, "EOF in string literal");
+		case '\0':
+			error(&s->loc, "null byte in string literal");
 		default:
 			nextchar(s);
 			break;
